@@ -107,7 +107,7 @@ UNITS = ["ns", "us", "GHz", "MHz", "V", "mV"]
 def arg_values(draw, depth=1, hashable_only=False):
     kinds = ["f", "i", "b", "str", "c", "bytes", "unit", "none", "expr", "mkey", "mixtuple"]
     if not hashable_only:
-        kinds += ["strs", "ints", "floats", "bools", "mixnum", "numtuple", "emptylist", "emptytuple", "mixlist", "ndarray", "fset", "cond"]
+        kinds += ["strs", "ints", "floats", "bools", "mixnum", "numtuple", "emptylist", "emptytuple", "mixlist", "ndarray", "fset", "mixset", "cond"]
     k = draw(st.sampled_from(kinds))
     if k == "f":
         return ["f", draw(numbers())]
@@ -163,8 +163,8 @@ def arg_values(draw, depth=1, hashable_only=False):
         return ["mixtuple", [["str", draw(st.sampled_from(STRS))]] + draw(st.lists(items, max_size=3))]
     if k == "mixlist":
         return ["mixlist", [["str", draw(st.sampled_from(STRS))], ["i", draw(st.integers(0, 3))]] + draw(st.lists(items, max_size=2))]
-    if k == "fset":
-        return ["fset", [["str", draw(st.sampled_from(STRS))], ["i", draw(st.integers(0, 3))]]]
+    if k in ("fset", "mixset"):
+        return [k, [["str", draw(st.sampled_from(STRS))], ["i", draw(st.integers(0, 3))]]]
     raise KeyError(k)
 
 
@@ -219,6 +219,8 @@ def build_arg(v):
         return [build_arg(x) for x in v[1]]
     if k == "fset":
         return frozenset(build_arg(x) for x in v[1])
+    if k == "mixset":
+        return set(build_arg(x) for x in v[1])
     if k == "ndarray":
         n = 1
         for s in v[2]:
